@@ -475,7 +475,7 @@ func (c *vf19Case) waitQuiescent() (stuck string) {
 		}
 		// (in a test binary package main is named by its import path, hence suffix matches)
 		marker := fmt.Sprintf(".copyLoop in goroutine %d\n", gid)
-		live, liveBlockedElsewhere := 0, 0
+		live, liveBlockedElsewhere, liveParked := 0, 0, 0
 		callerBlocked := false
 		var elsewhere string
 		for _, g := range vf19Dump() {
@@ -491,12 +491,18 @@ func (c *vf19Case) waitQuiescent() (stuck string) {
 				liveBlockedElsewhere++
 				elsewhere = g.text
 			}
+			if vf19Blocked(g.state) && strings.Contains(g.text, ".(*vf19Conn).") {
+				liveParked++
+			}
 		}
 		c.mu.Lock()
 		ret2, p2, ch2 := c.returned, c.parkedLocked(), c.change
 		c.mu.Unlock()
 		if ch1 == ch2 && p1 == p2 && ret == ret2 {
-			if live == p1 && (callerBlocked || ret) {
+			// (liveParked: a copier that the harness still counts as parked may already have been woken -
+			// by the Close of its connection, say - and merely not have run yet on a busy machine; it is
+			// quiescent only if the scheduler, too, shows it blocked inside the scripted call)
+			if live == p1 && liveParked == p1 && (callerBlocked || ret) {
 				// Every live copier is parked in a scripted call AND copyLoop itself is
 				// blocked (or has returned).  The second half matters: while copyLoop is
 				// still running it may be about to start the second copier (seen as a
